@@ -484,6 +484,57 @@ def _r04j(rep):
                      f"'{core.norm(core.src(st), 100)}' is typed {shown}, not {w[1]}->{w[2]} (U unit-cell atom, R atom of the untrimmed surrounding cell, S supercell atom, S0 first image in the supercell): whenever the surrounding frame holds more lattice points than |det S| (non-diagonal matrices in the classic construction) the map names wrong or non-existent unit-cell representatives", line=st.lineno)
 
 
+def _r04k(rep):
+    """The pure translations are differences inside one sublattice: reference atom and images of the same primitive atom."""
+    rep.rule("R04k", "pure translations of the primitive cell: the vectors handed to the permutation search are positions of the images of ONE primitive atom (selected by s2p_map == r) minus the position of an atom of that same sublattice (the representative r itself, or one of the selected images); a reference from another sublattice gives offsets between sublattices, which are not lattice translations whenever the primitive atom order is not the supercell order (positions_to_reorder)", 1)
+    fn = core.find_def(CELLS, "Primitive._get_atomic_permutations")
+    asg = {}
+    for st in ast.walk(fn):
+        if isinstance(st, ast.Assign) and len(st.targets) == 1 and isinstance(st.targets[0], ast.Name):
+            asg.setdefault(st.targets[0].id, []).append(st.value)
+
+    def res(e, depth=0):
+        while isinstance(e, ast.Name) and len(asg.get(e.id, [])) == 1 and depth < 8:
+            e = asg[e.id][0]
+            depth += 1
+        return e
+
+    def walk_res(e, depth=0):
+        for y in ast.walk(e):
+            yield y
+            if isinstance(y, ast.Name) and len(asg.get(y.id, [])) == 1 and depth < 4:
+                yield from walk_res(asg[y.id][0], depth + 1)
+
+    # the selection D[np.where(s2p_map == r)[0]] / D[s2p_map == r] of a difference array D = X - X[ref] (D may be
+    # a local or written in place)
+    diffs, sels = [], []
+    for x in ast.walk(fn):
+        if not isinstance(x, ast.Subscript):
+            continue
+        v = res(x.value)
+        if not (isinstance(v, ast.BinOp) and isinstance(v.op, ast.Sub) and isinstance(v.right, ast.Subscript) and core.src(res(v.right.value)) == core.src(res(v.left))):
+            continue
+        for c in walk_res(x.slice):
+            if isinstance(c, ast.Compare) and len(c.ops) == 1 and isinstance(c.ops[0], ast.Eq):
+                sides = [c.left, c.comparators[0]]
+                maps = [y for y in sides if core.src(res(y)).endswith("_s2p_map") or core.src(res(y)).endswith(".s2p_map")]
+                others = [y for y in sides if y not in maps]
+                if len(maps) == 1 and len(others) == 1:
+                    diffs.append((None, v.right.slice, v))
+                    sels.append((x, others[0]))
+    if len(diffs) != 1 or len(sels) != 1:
+        raise AnalysisError(f"R04k: Primitive._get_atomic_permutations no longer builds its translations as (positions - positions[reference])[s2p_map == representative] ({len(diffs)} differences, {len(sels)} selections)")
+    ref, rep_expr = res(diffs[0][1]), res(sels[0][1])
+    same = core.src(ref) == core.src(rep_expr)
+    # or: the reference is one of the selected images, idx[k] with idx = np.where(s2p_map == r)[0]
+    if not same and isinstance(ref, ast.Subscript):
+        base = res(ref.value)
+        sel_cmp = [core.src(cc) for cc in walk_res(sels[0][0].slice) if isinstance(cc, ast.Compare)]
+        same = any(isinstance(c, ast.Compare) and core.src(c) in sel_cmp for c in walk_res(ref.value))
+    rep.instance("R04k", CELLS, "Primitive._get_atomic_permutations", f"translations = (positions - positions[{core.src(ref)}])[s2p_map == {core.src(rep_expr)}]", same,
+                 f"the reference atom '{core.src(ref)}' is not taken from the sublattice selected by 's2p_map == {core.src(rep_expr)}': the stored 'translations' are offsets between two sublattices unless supercell atom {core.src(ref)} happens to be an image of that primitive atom (true only for the default atom order); the permutations then map atoms onto another species or the search fails for a valid cell", line=diffs[0][2].lineno)
+
+
 def _r04i(rep):
     """The surrounding frame of the old-style construction is spanned by the supercell basis vectors."""
     from engine import symnp
@@ -532,6 +583,7 @@ def run(rep: core.Report):
     _r04g(rep)
     _r04i(rep)
     _r04j(rep)
+    _r04k(rep)
     from rules import shared_bcast
 
     shared_bcast.run(rep, "R04h", sorted(core.python_files("phonopy/structure")))
@@ -541,6 +593,8 @@ def selftest():
     V = []
     b = lambda name, file, old, new, rule, expect="", **kw: V.append(dict(name=name, kind="break", file=file, old=old, new=new, rule=rule, expect=expect, **kw))
     n = lambda name, file, old, new, **kw: V.append(dict(name=name, kind="neutral", file=file, old=old, new=new, **kw))
+    b("translations referenced to supercell atom 0's representative", CELLS, "        diff = positions - positions[self._p2s_map[0]]", "        diff = positions - positions[self._s2p_map[0]]", "R04k", "_get_atomic_permutations")
+    n("translations referenced to the first selected image", CELLS, "        diff = positions - positions[self._p2s_map[0]]\n        trans = np.array(\n            diff[np.where(self._s2p_map == self._p2s_map[0])[0]],", "        images = np.where(self._s2p_map == self._p2s_map[0])[0]\n        diff = positions - positions[images[0]]\n        trans = np.array(\n            diff[images],")
     b("supercell-to-unit map from the surrounding-cell index by the supercell block length", CELLS, "            self._s2u_map = np.array(u2sur_map[sur2s_map] * N, dtype=\"int64\")", "            self._s2u_map = np.array(sur2s_map // N * N, dtype=\"int64\")", "R04j", "_create_supercell")
     n("supercell-to-unit map scaled after the conversion", CELLS, "            self._s2u_map = np.array(u2sur_map[sur2s_map] * N, dtype=\"int64\")", "            self._s2u_map = np.array(u2sur_map[sur2s_map], dtype=\"int64\") * N")
     b("atom map of the surrounding cell indexed by itself", CELLS, "            self._s2u_map = np.array(u2sur_map[sur2s_map] * N, dtype=\"int64\")", "            self._s2u_map = np.array(sur2s_map[u2sur_map] * N, dtype=\"int64\")", "R04j", "_create_supercell")
